@@ -186,6 +186,8 @@ pub struct OpResult {
     pub liquidity_delta: i128,
     /// for Reposition: (old lower, old upper, old liquidity)
     pub repositioned_from: Option<(i32, i32, u128)>,
+    /// the op was sent with a wrong tick array of the same pool (`Op::Skewed`)
+    pub skewed: bool,
 }
 
 pub struct Hist {
@@ -535,8 +537,9 @@ impl Hist {
                     }
                 }
             }
-            let r = self.exec(inner);
+            let mut r = self.exec(inner);
             self.w.array_skew = None;
+            r.skewed = true;
             return r;
         }
         if self.needs_v2() {
@@ -557,7 +560,7 @@ impl Hist {
     }
 
     fn exec_inner(&mut self, op: &Op) -> OpResult {
-        let mut res = OpResult { did: Did::Vacuous, outcome: None, pos: None, user: None, swap: None, liquidity_delta: 0, repositioned_from: None };
+        let mut res = OpResult { did: Did::Vacuous, outcome: None, pos: None, user: None, swap: None, liquidity_delta: 0, repositioned_from: None, skewed: false };
         let open = self.open_positions();
         let pick_pos = |i: u16| -> Option<usize> { if open.is_empty() { None } else { Some(open[pick(i, open.len())]) } };
         let ix = match op {
